@@ -119,6 +119,96 @@ theorem newDMG_total (ups cores downs : List Seg)
   obtain ⟨g3, h3⟩ := hall .down downs g2 (ups.length + cores.length) (fun s hs => h s (by simp [hs]))
   exact ⟨g3, by simp [h1, h2, h3]⟩
 
+/-! ### closing the gap: joins THROUGH the destination vertex are long
+
+`IfWF`: interface ids are non-zero where a link exists (the last entry of a segment has an ingress,
+every other entry an egress, a segment has at least two entries).  `SegWF` as above. -/
+
+/-- a join either avoids the destination vertex at its intermediate join points (then the search
+finds it), or its path has at least three interface entries of the destination AS — it enters the
+destination, leaves it and comes back — and `filterLongPaths` removes it -/
+theorem join_strict_or_long {ups cores downs : List Seg} {src dst : Nat} {es : List Edge} {p : Path}
+    (hdst : dst ≠ 0) (hw : ∀ s ∈ ups ++ cores ++ downs, SegWF s ∧ IfWF s)
+    (hj : IsJoin ups cores downs src dst es) (hp : pathOf es = .ok p) :
+    IsJoinStrict ups cores downs src dst es ∨ isLong p.intfs = true :=
+  Scion.Combinator.join_strict_or_long hdst hw hj hp
+
+/-- COMPLETENESS, every join of the specification: for well-formed segment sets, the path of every
+join of `allJoins` is found by the graph search unless it passes some AS more than twice -/
+theorem getPaths_complete_all {ups cores downs : List Seg} {g : DMG} {src dst : Nat}
+    {es : List Edge} {p : Path}
+    (hdst : dst ≠ 0) (hw : ∀ s ∈ ups ++ cores ++ downs, SegWF s ∧ IfWF s)
+    (hg : newDMG ups cores downs = some g)
+    (hj : es ∈ allJoins ups cores downs src dst) (hp : pathOf es = .ok p)
+    (h2 : isLong p.intfs = false) : es ∈ getPaths g src dst := by
+  rcases join_strict_or_long hdst hw ((allJoins_iff ..).1 hj) hp with h | h
+  · exact getPaths_complete_wf hg (fun s hs => (hw s hs).1) h
+  · rw [h] at h2; cases h2
+
+/-- `Combine` over the graph = `Combine` over the specification (findAllIdentical): the graph is
+built without panic and the two results contain exactly the same paths -/
+theorem combineDMG_complete_all (ups cores downs : List Seg) (src dst : Nat)
+    (hdst : dst ≠ 0) (hw : ∀ s ∈ ups ++ cores ++ downs, SegWF s ∧ IfWF s) :
+    ∃ ps, combineDMG ups cores downs src dst true = some ps ∧
+      ∀ p, p ∈ ps ↔ p ∈ combineSpec ups cores downs src dst true := by
+  obtain ⟨g, hg⟩ := newDMG_total ups cores downs (fun s hs => by
+    have := (hw s hs).2.1; intro h; rw [h] at this; simp at this)
+  refine ⟨filterLongPaths (sortByWeight (pathsOf (getPaths g src dst))),
+    by simp [combineDMG, hg], ?_⟩
+  intro p
+  unfold combineSpec
+  simp only [if_true]
+  unfold filterLongPaths
+  simp only [List.mem_filter, (sortByWeight_perm _).mem_iff]
+  unfold pathsOf
+  simp only [List.mem_filterMap]
+  constructor
+  · rintro ⟨⟨es, hes, hpo⟩, hl⟩
+    exact ⟨⟨es, (getPaths_sound hg hes).2, hpo⟩, hl⟩
+  · rintro ⟨⟨es, hes, hpo⟩, hl⟩
+    refine ⟨⟨es, ?_, hpo⟩, hl⟩
+    have hp : pathOf es = .ok p := by
+      split at hpo
+      · next q hq => cases hpo; exact hq
+      · cases hpo
+    exact getPaths_complete_all hdst hw hg hes hp (by simpa using hl)
+
+/-- … and without `findAllIdentical` both keep, for every interface sequence, a path with the same
+(latest) expiry: which of several equally late constructions is kept depends on the order in which
+the solutions were found, which the statement leaves open -/
+theorem combineDMG_complete_all_uniq (ups cores downs : List Seg) (src dst : Nat)
+    (hdst : dst ≠ 0) (hw : ∀ s ∈ ups ++ cores ++ downs, SegWF s ∧ IfWF s) :
+    ∃ ps, combineDMG ups cores downs src dst false = some ps ∧
+      (∀ p ∈ ps, ∃ q ∈ combineSpec ups cores downs src dst false,
+        q.intfs = p.intfs ∧ q.expiry = p.expiry) ∧
+      (∀ q ∈ combineSpec ups cores downs src dst false, ∃ p ∈ ps,
+        p.intfs = q.intfs ∧ p.expiry = q.expiry) := by
+  obtain ⟨psA, hA, hiff⟩ := combineDMG_complete_all ups cores downs src dst hdst hw
+  -- both results are `filterDuplicates` of lists with the same members
+  have key : ∀ (A B : List Path), (∀ p, p ∈ A ↔ p ∈ B) → ∀ p ∈ filterDuplicates A,
+      ∃ q ∈ filterDuplicates B, q.intfs = p.intfs ∧ q.expiry = p.expiry := by
+    intro A B hAB p hp
+    have hpA := (filterDuplicates_sublist A).subset hp
+    obtain ⟨q, hq, hqi, hle⟩ := filterDuplicates_covers B p ((hAB p).1 hpA)
+    have hqA := (hAB q).2 ((filterDuplicates_sublist B).subset hq)
+    have := filterDuplicates_latest A p hp q hqA hqi
+    exact ⟨q, hq, hqi, by omega⟩
+  unfold combineDMG at hA ⊢
+  cases hg : newDMG ups cores downs with
+  | none => simp [hg] at hA
+  | some g =>
+    simp only [hg, if_true, Option.some.injEq] at hA
+    subst hA
+    refine ⟨_, rfl, ?_, ?_⟩
+    · intro p hp
+      simp only [Bool.false_eq_true, if_false] at hp
+      have := key _ _ hiff p hp
+      simpa [combineSpec] using this
+    · intro q hq
+      simp only [combineSpec, Bool.false_eq_true, if_false] at hq
+      have := key _ _ (fun p => (hiff p).symm) q (by simpa [combineSpec] using hq)
+      simpa using this
+
 /-- `Path` does not panic on a join: the `Path` of every join exists -/
 theorem pathOf_ok_of_join {ups cores downs : List Seg} {src dst : Nat} {es : List Edge}
     (h : IsJoin ups cores downs src dst es) : ∃ p, pathOf es = .ok p :=
@@ -181,5 +271,26 @@ example : NoCollision (allTuples [exUp] [] [exDown]) := by
 example : (newDMG [exUp] [] [exDown]).map (fun g => (getPaths g 3 4).map fun es => es.map fun e => (e.kind, e.sc, e.peer)) =
     some [[(.up, 2, 1), (.down, 2, 1)], [(.up, 1, 0), (.down, 1, 0)], [(.up, 0, 0), (.down, 0, 0)]] := by
   decide
+
+/-- the example segments satisfy the well-formedness hypotheses of the completeness theorems -/
+example : ∀ s ∈ [exUp] ++ [] ++ [exDown], SegWF s ∧ IfWF s := by
+  intro s hs
+  simp only [List.append_nil, List.cons_append, List.nil_append, List.mem_cons, List.not_mem_nil,
+    or_false] at hs
+  rcases hs with rfl | rfl
+  · refine ⟨⟨by decide, by decide⟩, by decide, by decide, ?_⟩
+    intro i ent h hne
+    match i, h, hne with
+    | 0, h, _ => simp [exUp] at h; subst h; decide
+    | 1, h, _ => simp [exUp] at h; subst h; decide
+    | 2, _, hne => exact absurd rfl hne
+    | n + 3, h, _ => simp [exUp] at h
+  · refine ⟨⟨by decide, by decide⟩, by decide, by decide, ?_⟩
+    intro i ent h hne
+    match i, h, hne with
+    | 0, h, _ => simp [exDown] at h; subst h; decide
+    | 1, h, _ => simp [exDown] at h; subst h; decide
+    | 2, _, hne => exact absurd rfl hne
+    | n + 3, h, _ => simp [exDown] at h
 
 end Scion.C29
